@@ -840,3 +840,6 @@ package types
 //@   ensures [implementationFieldsAssigned] err == nil ==> r.TxHash == dec.TxHash && r.ContractAddress == dec.ContractAddress && r.GasUsed == dec.GasUsed
 //@   loop 1:
 //@     invariant len(r.Logs) == len(dec.Logs) && r.CumulativeGasUsed == dec.CumulativeGasUsed && r.Bloom == dec.Bloom
+
+// Rendering a vote type as text reads nothing but its argument.
+//@ trusted func GetReadableVoteTypeString(t kproto.SignedMsgType) (r string)
